@@ -127,3 +127,14 @@ M("hashantijoin-uses-first-key-field", HJ, "    rkeys = set()\n    for rrow in r
 M("hashlookupjoin-last-partner", HJ, "    rlookup = lookupone(rit, rkey, strict=False)", "    rlookup = dict((k, v[-1]) for k, v in lookup(rit, rkey).items())", ["C07"])
 M("hashleftjoin-unmatched-dropped-when-cached", HJ, "        else:\n            outrow = list(lrow)  # start with the left row\n            # extend with missing values in place of the right row\n            outrow.extend([missing] * len(rvind))\n            yield tuple(outrow)",
   "        elif len(rlookup) > 0:\n            outrow = list(lrow)  # start with the left row\n            # extend with missing values in place of the right row\n            outrow.extend([missing] * len(rvind))\n            yield tuple(outrow)", ["C07"], nth=0)
+
+SO = "transform/setops.py"
+# ---- C08 ----------------------------------------------------------------------------------
+M("complement-b-exhausted-stops", SO, "                if b is None or Comparable(a) < Comparable(b):", "                if b is None:\n                    break\n                if Comparable(a) < Comparable(b):", ["C08"])
+M("complement-strict-advances-b", SO, "                    if not strict:\n                        try:\n                            b = next(itb)", "                    if True:\n                        try:\n                            b = next(itb)", ["C08"])
+M("complement-native-lt", SO, "                if b is None or Comparable(a) < Comparable(b):", "                if b is None or a < b:", ["C08"])
+M("hashintersection-no-decrement", SO, "            yield t\n            bcnt[t] -= 1", "            yield t", ["C08"])
+M("intersection-advances-a-only", SO, "                yield a\n                a = tuple(next(ita))\n                b = tuple(next(itb))", "                yield a\n                a = tuple(next(ita))", ["C08"])
+M("hashcomplement-strict-inverted", SO, "        if bcnt[t] > 0:\n            if not strict:\n                bcnt[t] -= 1", "        if bcnt[t] > 0:\n            if strict:\n                bcnt[t] -= 1", ["C08"])
+M("recordcomplement-no-align", SO, "    bv = cut(b, *ha)\n    return complement(a, bv,", "    bv = b\n    return complement(a, bv,", ["C08"])
+M("diff-swapped", SO, "    return added, subtracted\n\n\nTable.diff = diff", "    return subtracted, added\n\n\nTable.diff = diff", ["C08"])
